@@ -869,7 +869,7 @@ class Simulator:
                 if de > 0x3FFF:
                     memory[de] = memory[hl]
                 bc = (bc - 1) % 65536
-                if bc == 0 or pc <= de <= pc + 1:
+                if bc == 0 or (de - pc) % 0x4000 < 2:
                     repeat = False
                 de = (de + inc) % 65536
                 hl = (hl + inc) % 65536
